@@ -443,6 +443,12 @@ pub fn run(opts: &Opts) -> Report {
             if let Err(m) = &g_ts {
                 rep.fail("panic", &format!("set-ts/{}", op.sig()), vec![format!("text={:?}", text), lines[1].clone()], "a boolean", &format!("panic:{}", m));
             }
+            // "a test on singleton sets equals the test on their single members", whatever stands on the other side: the
+            // set that holds one selection (however many times) against a set is that selection against the set
+            // (SAMERANGE with `all` apart, see above)
+            if a.iter().all(|x| *x == a[0]) && !(op.k == K::SameRange && op.all) && got.is_ok() && g_ts.is_ok() && got != g_ts {
+                rep.fail("oracle", &format!("singleton-left/{}", op.sig()), vec![format!("text={:?}", text), lines[0].clone(), lines[1].clone()], &format!("the same answer for the set {{{}}} and for its member ({})", astr, b2s(&g_ts)), &b2s(&got));
+            }
             if let Some(c0) = b.get(0) {
                 let tc = ts(res, *c0);
                 let g_st = guarded(|| sa.test(&o, &tc, res));
